@@ -7,6 +7,10 @@ import json
 import os
 from .. import core
 
+LEVEL = "proof"
+EXPLANATION = ("Sequential refinement, invariants and iteration completeness are Coq theorems about Dict/Model.v, which is compared "
+               "with the real code exactly (M1). Linearizability under concurrent mutation is searched, not proved; the search reproduces "
+               "the open findings concurrent-replacing-put / concurrent-delete-reclaim / concurrent-delete-vs-put on every run.")
 M64 = (1 << 64) - 1
 HKINDS = {0: "identity", 1: "constant", 2: "low-2-bits", 3: "negated", 4: "multiplicative(int, may be negative)",
           5: "qt_hash64 truncated to int", 6: "table (adversarial)", 7: "high-bits-only (k<<20)", 8: "INT_MIN|k", 9: "k mod 7"}
@@ -113,7 +117,7 @@ def gen_cap(rng, big):
     kind = rng.choice([0, 4, 5, 8])
     nk = rng.choice([1, 2, 4])
     lines = []
-    target = (cap if cap else (1 << 20))
+    target = (cap if cap else (1 << 17))     # default cap (2^20): stop at 2^17, the clamp itself is exercised with small caps
     total = 0
     size = 2
     while True:
@@ -132,7 +136,7 @@ def gen_cap(rng, big):
         size *= 2
     lines.append("D" if not big else "d")
     lines.append("I")
-    return dict(family="cap" + ("-2^20" if big else ""), cap=cap, kind=kind, tab=None, keys=list(range(0, nk + 1)), lines=lines)
+    return dict(family="cap" + ("-default-to-2^17" if big else ""), cap=cap, kind=kind, tab=None, keys=list(range(0, nk + 1)), lines=lines)
 
 
 CORPUS = [
@@ -555,7 +559,7 @@ def run(ctx):
     wl_hist = {}
     r4 = rng.fork()
     configs = [(1, 1, 0), (2, 2, 1), (4, 1, 1)] if quick else [(1, 1, 0), (2, 2, 1), (4, 1, 1), (2, 1, 1), (1, 4, 1)]
-    per = (100, 15) if quick else (1200, 200)
+    per = (100, 15) if quick else (600, 100)
     wls = ["insert-only", "put-no-delete", "delete-no-put", "mixed", "insert-only"]
     for ci, (ns, nw, spin) in enumerate(configs):
         env = core.qenv(ns, nw, stack=65536)
@@ -566,7 +570,7 @@ def run(ctx):
             conc_runs += 1
             conc_ops += sum(len(l) for l in c["tasks"])
             # a hang in a class with an open finding is cut short; the insert-only class gets the generous watchdog
-            res = run_conc(exe, c, env, spin, timeout=40 if c["workload"] == "insert-only" else 8)
+            res = run_conc(exe, c, env, spin, timeout=90 if c["workload"] == "insert-only" else 8)
             if res is None:
                 conc_dead.append((ns, nw, spin, c))
                 continue
